@@ -146,9 +146,12 @@ func instrumentFile(path, rel string, next *int, noYield bool) ([]Site, error) {
 					}
 				}
 			case *ast.SelectorExpr:
-				if id, ok := x.X.(*ast.Ident); ok && id.Name == "sync" && x.Sel.Name == "Pool" {
-					patches = append(patches, patch{off: off(x.Pos()), del: off(x.End()) - off(x.Pos()), text: "simrt.Pool"})
-					usesSimrt = true
+				if id, ok := x.X.(*ast.Ident); ok && id.Name == "sync" {
+					switch x.Sel.Name {
+					case "Pool", "Mutex", "RWMutex":
+						patches = append(patches, patch{off: off(x.Pos()), del: off(x.End()) - off(x.Pos()), text: "simrt." + x.Sel.Name})
+						usesSimrt = true
+					}
 				}
 			}
 			return true
